@@ -18,7 +18,7 @@ DESIGN_REF = 'DESIGN.md section 3 C04'
 LEVEL = 'exploration'
 RULE = ('Cases as C03 (mostly memory reuse off so every line is observable; one case in five with reuse on, where only the captured rows are checked; one in three on a simulator object that processed another stimulus before), single delay dataset. Non-trivial iff some waveform has >= 2 finite entries. '
         'Distinct = digest of all case fields incl. shift / scale.')
-ASSUMPTIONS = ['times k/4 with k < 1024, delays k/4 with k < 64, shifts in {1/4..64}, scales 2^-16..2^10: every sum is exact in float32',
+ASSUMPTIONS = ['times k/4 with k < 1024, delays k/4 with k < 64, shifts in {1/4..64}, scales 2^-40..2^40: every sum is exact in float32',
                'strict monotonicity is only demanded when all four delay entries of every line are equal']
 REACH = {'wave_sim._wave_eval': ('wave_sim.py', 155, 265)}
 REACH_TEXT = {'pulse-filter': ('wave_sim.py', 'previous_t = cbuf[z_mem + z_cur - 1, sim] if z_cur > 0 else TMIN'), 'overflow-branch': ('wave_sim.py', 'overflows += 1')}
@@ -120,7 +120,7 @@ def check_case(case, ctx):
                 ctx.violation('rigid-shift', f's[{k}] changes when the inputs are shifted by {shift}', dict(case, shift=shift))
                 return
         # metamorphic: scale times and delays by 2^k
-        k = rr.choice([-2, -1, 1, 2, 3, -12, -16, 10])      # extreme scales stay exact in float32 (only the exponent changes)
+        k = rr.choice([-2, -1, 1, 2, 3, -12, -16, 10, -24, -30, -40, 20, 40])      # extreme scales stay exact in float32 (only the exponent changes)
         sc = 2.0 ** k
         sim3 = WC.make_sim(r, c_reuse=reuse, delays=(r.delays * r.delays.dtype.type(sc))[0])
         WC.simulate(r, sim3, scale=sc)
